@@ -3,7 +3,7 @@
    validity test, the effect of reconstrain in each branch, and validity as an invariant of arbitrary
    operation sequences.  No axioms. *)
 From Coq Require Import List ZArith Bool Arith Lia.
-From Inferno Require Import C01.Ring C01.RingProofs C13.Shaped.
+From Inferno Require Import C01.Ring C13.Shaped C13.Lists.
 Import ListNotations.
 
 (* ------------------------------------------------------------------ the constraint dictionary *)
@@ -51,9 +51,9 @@ Proof.
         intros ->. apply Hk. apply (in_map fst) in H. exact H.
       * intros [[-> ->]|[Hne [H|H]]]; auto. injection H as -> _. congruence.
     + rewrite (IH Hnd'). split.
-      * intros [H|[H|H]]; auto. injection H as <- <-. auto.
-      * intros [H|[H1 [H|H]]]; auto.
-  Qed.
+      * intros [H|[[-> ->]|[H1 H2]]]; [injection H as <- <-; right; split; [exact Hne|left; reflexivity]|tauto|tauto].
+      * intros [[-> ->]|[H1 [H|H]]]; tauto.
+Qed.
 Lemma in_dict_del c d d' s' : In (d', s') (dict_del c d) -> In (d', s') c.
 Proof.
   induction c as [|[k s0] tl IH]; cbn; [tauto|].
@@ -95,4 +95,230 @@ Proof.
   intros H. destruct (in_dec Z.eq_dec d (keys tl)) as [Hin|Hin].
   - rewrite keys_dict_set_in in H by exact Hin. tauto.
   - rewrite keys_dict_set_notin in H by exact Hin. apply in_app_or in H. destruct H as [H|[H|[]]]; [tauto|congruence].
+Qed.
+
+(* ------------------------------------------------------------------ _constraint_dimensionality *)
+Lemma fold_max_ge k ks x : In x (k :: ks) -> (x <= fold_right Z.max k ks)%Z.
+Proof.
+  induction ks as [|a t IH]; cbn; [intros [->|[]]; lia|].
+  intros [->|[->|H]]; [specialize (IH (or_introl eq_refl))|..|specialize (IH (or_intror H))]; lia.
+Qed.
+Lemma fold_max_in k ks : In (fold_right Z.max k ks) (k :: ks).
+Proof.
+  induction ks as [|a t IH]; cbn; [auto|].
+  destruct (Z.max_spec a (fold_right Z.max k t)) as [[_ ->]|[_ ->]]; [|auto].
+  destruct IH as [H|H]; auto.
+Qed.
+Lemma fold_min_le k ks x : In x (k :: ks) -> (fold_right Z.min k ks <= x)%Z.
+Proof.
+  induction ks as [|a t IH]; cbn; [intros [->|[]]; lia|].
+  intros [->|[->|H]]; [specialize (IH (or_introl eq_refl))|..|specialize (IH (or_intror H))]; lia.
+Qed.
+Lemma fold_min_in k ks : In (fold_right Z.min k ks) (k :: ks).
+Proof.
+  induction ks as [|a t IH]; cbn; [auto|].
+  destruct (Z.min_spec a (fold_right Z.min k t)) as [[_ ->]|[_ ->]]; [auto|].
+  destruct IH as [H|H]; auto.
+Qed.
+
+(* independent reading of "a tensor with n dimensions is big enough for the constrained dims":
+   non-strict: every key indexes an existing dim; strict: additionally every non-negative key,
+   counted from the front, lies strictly before every negative key, counted from the back *)
+Definition dim_ok (c : cons_t) (strict : bool) (n : Z) : Prop :=
+  if strict then forall k1 k2, In k1 (keys c) -> In k2 (keys c) -> (Z.max (k1 + 1) 0 - Z.min k2 0 <= n)%Z
+  else forall k, In k (keys c) -> (- n <= k < n)%Z.
+
+Lemma dimensionality_le_iff c strict n : (0 <= n)%Z ->
+  ((constraint_dimensionality c strict <= n)%Z <-> dim_ok c strict n).
+Proof.
+  intros Hn. unfold constraint_dimensionality, dim_ok.
+  destruct (keys c) as [|k ks] eqn:Ek.
+  - destruct strict; split; intros; try lia; contradiction.
+  - pose proof (fold_max_in k ks) as Hmi. pose proof (fold_min_in k ks) as Hni.
+    destruct strict; split.
+    + intros H k1 k2 H1 H2. pose proof (fold_max_ge k ks k1 H1). pose proof (fold_min_le k ks k2 H2). lia.
+    + intros H. apply (H _ _ Hmi Hni).
+    + intros H x Hx. pose proof (fold_max_ge k ks x Hx). pose proof (fold_min_le k ks x Hx). lia.
+    + intros H. pose proof (H _ Hmi). pose proof (H _ Hni). lia.
+Qed.
+
+Lemma dim_ok_incl c c' strict n : incl (keys c') (keys c) -> dim_ok c strict n -> dim_ok c' strict n.
+Proof. unfold dim_ok. destruct strict; intros Hi H; intros; apply H; auto. Qed.
+
+Lemma dim_ok_range c strict n k : dim_ok c strict n -> In k (keys c) -> (- n <= k < n)%Z.
+Proof.
+  unfold dim_ok. destruct strict; intros H Hk; [|auto]. pose proof (H k k Hk Hk). lia.
+Qed.
+
+Lemma dimensionality_nonneg c strict : (0 <= constraint_dimensionality c strict)%Z.
+Proof. unfold constraint_dimensionality. destruct (keys c); [lia|]. destruct strict; lia. Qed.
+
+(* removing a constraint never raises the required dimensionality; editing keeps it *)
+Lemma dimensionality_del c d strict :
+  (constraint_dimensionality (dict_del c d) strict <= constraint_dimensionality c strict)%Z.
+Proof.
+  apply (proj2 (dimensionality_le_iff (dict_del c d) strict _ (dimensionality_nonneg c strict))).
+  eapply dim_ok_incl; [|apply (proj1 (dimensionality_le_iff c strict _ (dimensionality_nonneg c strict))); lia].
+  intros k Hk. eapply keys_dict_del_incl; eauto.
+Qed.
+Lemma dimensionality_set_in c d s strict : In d (keys c) ->
+  constraint_dimensionality (dict_set c d s) strict = constraint_dimensionality c strict.
+Proof. intros H. unfold constraint_dimensionality. rewrite keys_dict_set_in by exact H. reflexivity. Qed.
+
+(* ------------------------------------------------------------------ python indexing *)
+Lemma pyidx_lt n d : (- Z.of_nat n <= d < Z.of_nat n)%Z -> pyidx n d < n.
+Proof. unfold pyidx. destruct (Z.leb_spec 0 d); lia. Qed.
+Lemma pyidx_nonneg n d : (0 <= d)%Z -> pyidx n d = Z.to_nat d.
+Proof. unfold pyidx. destruct (Z.leb_spec 0 d); lia. Qed.
+Lemma pyidx_neg n d : (d < 0)%Z -> pyidx n d = Z.to_nat (Z.of_nat n + d).
+Proof. unfold pyidx. destruct (Z.leb_spec 0 d); lia. Qed.
+
+(* ------------------------------------------------------------------ _constraints_consistent *)
+(* independent reading: constraints that address the same dimension of an nd-dimensional tensor
+   agree on its size *)
+Definition pairwise_consistent (nd : nat) (c : cons_t) : Prop :=
+  forall d1 s1 d2 s2, In (d1, s1) c -> In (d2, s2) c -> pyidx nd d1 = pyidx nd d2 -> s1 = s2.
+Definition agrees (nd : nat) (c : cons_t) (hyp : list (option nat)) : Prop :=
+  forall d s s0, In (d, s) c -> nth (pyidx nd d) hyp None = Some s0 -> s0 = s.
+Definition in_range (nd : nat) (c : cons_t) : Prop := forall d s, In (d, s) c -> pyidx nd d < nd.
+
+Lemma consistent_loop_spec nd : forall c hyp, length hyp = nd -> in_range nd c ->
+  (consistent_loop nd c hyp = true <-> agrees nd c hyp /\ pairwise_consistent nd c).
+Proof.
+  induction c as [|[d s] tl IH]; intros hyp Hlen Hr.
+  - cbn. split; [intros _|reflexivity]. split; intros ? **; contradiction.
+  - assert (Hr' : in_range nd tl) by (intros ? ? ?; eapply Hr; right; eauto).
+    assert (Hi : pyidx nd d < length hyp) by (rewrite Hlen; eapply Hr; left; reflexivity).
+    cbn [consistent_loop]. destruct (nth (pyidx nd d) hyp None) as [s0|] eqn:En.
+    + destruct (Nat.eqb_spec s0 s) as [->|Hne].
+      * rewrite (IH hyp Hlen Hr'). split.
+        -- intros [Ha Hp]. split.
+           ++ intros d' s' s0' [H|H] Hn; [injection H as <- <-; congruence|eauto].
+           ++ intros d1 s1 d2 s2 [H1|H1] [H2|H2] He.
+              ** congruence.
+              ** injection H1 as <- <-. apply (Ha d2 s2 s H2). rewrite <- He. exact En.
+              ** injection H2 as <- <-. symmetry. apply (Ha d1 s1 s H1). rewrite He. exact En.
+              ** eauto.
+        -- intros [Ha Hp]. split.
+           ++ intros d' s' s0' H Hn. eapply Ha; [right; exact H|exact Hn].
+           ++ intros d1 s1 d2 s2 H1 H2. apply Hp; right; assumption.
+      * split; [discriminate|]. intros [Ha _]. exfalso. apply Hne. eapply Ha; [left; reflexivity|exact En].
+    + rewrite (IH (upd hyp (pyidx nd d) (Some s)) ltac:(rewrite upd_length'; exact Hlen) Hr'). split.
+      * intros [Ha Hp]. split.
+        -- intros d' s' s0' [H|H] Hn; [injection H as <- <-; congruence|].
+           destruct (Nat.eq_dec (pyidx nd d') (pyidx nd d)) as [He|He]; [rewrite He in Hn; congruence|].
+           eapply Ha; [exact H|]. rewrite nth_upd_neq by exact He. exact Hn.
+        -- intros d1 s1 d2 s2 [H1|H1] [H2|H2] He.
+           ++ congruence.
+           ++ injection H1 as <- <-. apply (Ha d2 s2 s H2). rewrite <- He. apply nth_upd_eq. exact Hi.
+           ++ injection H2 as <- <-. symmetry. apply (Ha d1 s1 s H1). rewrite He. apply nth_upd_eq. exact Hi.
+           ++ eauto.
+      * intros [Ha Hp]. split.
+        -- intros d' s' s0' H Hn.
+           destruct (Nat.eq_dec (pyidx nd d') (pyidx nd d)) as [He|He].
+           ++ rewrite He, nth_upd_eq in Hn by exact Hi. injection Hn as <-.
+              eapply Hp; [left; reflexivity|right; exact H|symmetry; exact He].
+           ++ rewrite nth_upd_neq in Hn by exact He. eapply Ha; [right; exact H|exact Hn].
+        -- intros d1 s1 d2 s2 H1 H2. apply Hp; right; assumption.
+Qed.
+
+Theorem constraints_consistent_spec c nd : in_range nd c ->
+  (constraints_consistent c nd = true <-> pairwise_consistent nd c).
+Proof.
+  intros Hr. unfold constraints_consistent.
+  rewrite (consistent_loop_spec nd c (repeat None nd) (repeat_length _ _) Hr). split; [tauto|].
+  intros H. split; [|exact H]. intros d s s0 Hin Hn. exfalso.
+  rewrite nth_repeat_lt in Hn by (eapply Hr; eauto). discriminate.
+Qed.
+
+Lemma in_keys (c : cons_t) k : In k (keys c) <-> exists s, In (k, s) c.
+Proof.
+  rewrite in_map_iff. split.
+  - intros ([k' s] & <- & H). exists s. exact H.
+  - intros (s & H). exists (k, s). auto.
+Qed.
+
+Section ShapedProofs.
+Context {A D : Type}.
+Variable zeroA : A.
+Notation tensor := (@tensor A D).
+Notation sdata := (@sdata A D).
+Notation shaped := (@shaped A D).
+Notation DTensor := (@DTensor A D).
+Notation reconstrain := (@reconstrain A D zeroA).
+Notation sstep := (@sstep A D zeroA).
+Notation srun := (@srun A D zeroA).
+
+(* ------------------------------------------------------------------ _constraints_compatible *)
+(* independent reading of "the tensor satisfies every constraint": every constrained dim exists and
+   has the constrained size; with strict constraints every dim addressed from the front lies strictly
+   before every dim addressed from the back (so distinct keys address distinct dims) *)
+Definition holds (t : tensor) (c : cons_t) : Prop :=
+  forall d s, In (d, s) c ->
+    (- Z.of_nat (ndim t) <= d < Z.of_nat (ndim t))%Z /\ nth (pyidx (ndim t) d) (tshape t) 0 = s.
+Definition front_before_back (nd : nat) (c : cons_t) : Prop :=
+  forall d1 d2, In d1 (keys c) -> In d2 (keys c) -> (0 <= d1)%Z -> (d2 < 0)%Z -> pyidx nd d1 < pyidx nd d2.
+Definition satisfies (t : tensor) (c : cons_t) (strict : bool) : Prop :=
+  holds t c /\ (strict = true -> front_before_back (ndim t) c).
+
+Theorem compatible_spec t c strict : constraints_compatible t c strict = true <-> satisfies t c strict.
+Proof.
+  unfold constraints_compatible, satisfies.
+  destruct (Z.ltb_spec (Z.of_nat (ndim t)) (constraint_dimensionality c strict)) as [Hlt|Hge].
+  - split; [discriminate|]. intros [Hh Hs]. exfalso.
+    assert (Hok : dim_ok c strict (Z.of_nat (ndim t))).
+    { unfold dim_ok. destruct strict.
+      - intros k1 k2 H1 H2. pose proof H1 as H1'. pose proof H2 as H2'.
+        apply in_keys in H1 as (s1 & H1). apply in_keys in H2 as (s2 & H2).
+        destruct (Hh _ _ H1) as [R1 _]. destruct (Hh _ _ H2) as [R2 _].
+        destruct (Z_lt_le_dec k1 0) as [N1|P1]; [lia|].
+        destruct (Z_lt_le_dec k2 0) as [N2|P2]; [|lia].
+        pose proof (Hs eq_refl k1 k2 H1' H2' P1 N2) as Hlt'.
+        rewrite pyidx_nonneg, pyidx_neg in Hlt' by lia. lia.
+      - intros k Hk. apply in_keys in Hk as (s & Hk). destruct (Hh _ _ Hk) as [R _]. exact R. }
+    apply dimensionality_le_iff in Hok; lia.
+  - assert (Hok : dim_ok c strict (Z.of_nat (ndim t))) by (apply dimensionality_le_iff; lia).
+    rewrite forallb_forall. split.
+    + intros Hf. split.
+      * intros d s Hin. split.
+        -- eapply dim_ok_range; [exact Hok|]. apply in_keys. eauto.
+        -- specialize (Hf _ Hin). cbn in Hf. apply Nat.eqb_eq in Hf. exact Hf.
+      * intros -> d1 d2 H1 H2 P1 N2. unfold dim_ok in Hok. pose proof (Hok d1 d2 H1 H2).
+        rewrite pyidx_nonneg, pyidx_neg by lia. lia.
+    + intros [Hh _] [d s] Hin. cbn. apply Nat.eqb_eq. apply (Hh _ _ Hin).
+Qed.
+
+(* with strict constraints distinct keys address distinct dimensions *)
+Theorem strict_distinct t c : constraints_compatible t c true = true ->
+  forall d1 d2, In d1 (keys c) -> In d2 (keys c) -> pyidx (ndim t) d1 = pyidx (ndim t) d2 -> d1 = d2.
+Proof.
+  intros H. apply compatible_spec in H as [Hh Hs]. specialize (Hs eq_refl).
+  intros d1 d2 H1 H2 He. pose proof H1 as H1'. pose proof H2 as H2'.
+  apply in_keys in H1' as (s1 & K1). apply in_keys in H2' as (s2 & K2).
+  destruct (Hh _ _ K1) as [R1 _]. destruct (Hh _ _ K2) as [R2 _].
+  destruct (Z_lt_le_dec d1 0) as [N1|P1]; destruct (Z_lt_le_dec d2 0) as [N2|P2].
+  - rewrite !pyidx_neg in He by lia. lia.
+  - pose proof (Hs d2 d1 H2 H1 P2 N1). lia.
+  - pose proof (Hs d1 d2 H1 H2 P1 N2). lia.
+  - rewrite !pyidx_nonneg in He by lia. lia.
+Qed.
+
+(* ------------------------------------------------------------------ valid is sound (and complete) *)
+Theorem valid_spec (s : shaped) :
+  valid s = true <->
+  match sdat s with
+  | Shaped.DTensor t => ignore (sdat s) = true \/ satisfies t (scons s) (sstrict s)
+  | _ => True
+  end.
+Proof.
+  unfold valid, ignore_or_compatible. destruct (sdat s) as [| |t]; [tauto|tauto|].
+  rewrite orb_true_iff, compatible_spec. tauto.
+Qed.
+
+(* the statement of the property: a tensor reported valid satisfies every constraint *)
+Theorem valid_sound (s : shaped) (t : tensor) : valid s = true -> sdat s = DTensor t -> ignore (sdat s) = false ->
+  forall d sz, In (d, sz) (scons s) ->
+    (- Z.of_nat (ndim t) <= d < Z.of_nat (ndim t))%Z /\ nth (pyidx (ndim t) d) (tshape t) 0 = sz.
+Proof.
+  intros Hv Hd Hi. apply valid_spec in Hv. rewrite Hd in *. destruct Hv as [Hv|[Hh _]]; [congruence|exact Hh].
 Qed.
